@@ -34,8 +34,9 @@ def main():
     res = Result(a.pid, tier, seed)
     try:
         mod.run(res)
+        extra = {"explanation": mod.EXPLANATION} if hasattr(mod, "EXPLANATION") else None
         code = finish(res, t0, mod.LEVEL, f"./check {a.pid} --tier {tier}", getattr(mod, "replay", None),
-                      rule=getattr(mod, "RULE", None))
+                      extra_cov=extra, rule=getattr(mod, "RULE", None))
     except Exception as ex:
         traceback.print_exc()
         res.errors.append(f"{type(ex).__name__}: {ex}")
